@@ -6,25 +6,31 @@ from props.common import quiet_ccp
 
 ID = "C15"
 LEAN_MODULES = ["Ccp.Props.C15"]
-RULE = ("names: description = prefix (Ethernet, Eth, Gi, GigabitEthernet, Port-channel, Serial, Vlan, Loopback, Tunnel, ATM, "
+RULE = ("names: description = prefix (Ethernet, Eth, Gi, GigabitEthernet, Port-channel, Bundle-Ether, Serial, Vlan, Loopback, Tunnel, ATM, "
         "TenGigE, mgmt, '', or random [A-Za-z-]+ ending in a letter) x 1..3 numbers 0..9999 (boundary biased: 0,1,9,10,99,100,"
         "999,1000,4094,9999) joined by '/' x optional .sub x optional :chan x optional class word over [A-Za-z-]; the surface "
         "string is the independent rendering plus, at random, a blank/tab/NBSP after the prefix, leading zeros, outer blanks. "
         "pairs: two descriptions of the same shape (same or different prefix, numbers drawn close to each other so that ties "
         "and one-digit/two-digit neighbours such as 2 vs 10 occur), and mixed-shape pairs (no oracle, correspondence only). "
-        "ranges: base name + list of singles/intervals over the LAST numeric component (port, .sub or :chan), later parts "
+        "ranges: base name (about a quarter with a hyphenated prefix: Port-channel, Bundle-Ether, nve-x, a-b-c, random) + list of singles/intervals over the LAST numeric component (port, .sub or :chan), later parts "
         "written bare ('5', '9-10'), marked ('.5', ':9-10') or as full names, with duplicates, overlaps, descending intervals, "
-        "blanks around ',' and '-', optional hyphen-free class word at the end; each followed by a sequence of read accessors "
+        "blanks around ',' and '-', optional hyphen-free class word at the end (hyphenated class words only in the fixed list); each followed by a sequence of read accessors "
         "(len/iter/list/set/dicts). malformed stream: random strings over 'EthPo-19/.:^ _,x' and single-character mutations of "
         "valid names/ranges (oracle silent, correspondence only). non-trivial = name with >=2 components or a surface variation; "
         "pair with a numeric tie-break beyond the first component; range with an interval of width>=2 or >=3 parts. "
         "Only ASCII digits are generated (the code's \\d / str.isdigit / int() also accept other Unicode decimal digits; the "
         "model does not). Digit runs have at most 5 digits and an interval spans at most 400 values (run-time bound: __hash__ is (idx+1)**value). Whitespace inside names is one of ' ', TAB, NBSP.")
-LEVEL_TEXT = ("Theorems (Lean 4, all inputs): see Ccp.Props.C15. The model (hand-written scanners for the five regexes of "
+LEVEL_TEXT = ("Theorems (Lean 4, all inputs): parse(render d) = d for every well-formed description, and parse(render(parse s)) = parse s "
+              "for every accepted text s; same-shape interfaces "
+              "order by their numeric components and never raise; == implies equal hash and neither < nor >; an accepted range "
+              "text (hyphenated prefixes such as Port-channel1-3 included since fix f223496) expands to the begin object with its "
+              "last numeric component varied over the denoted integers, each once, ascending; readers leave the data unchanged. "
+              "The model (hand-written scanners for the five regexes of "
               "CiscoIOSInterface, slot/card/port assignment, rendering, sort_list order, hash, CiscoRange.parse_cisco_interfaces "
               "and its read accessors) is tied to the code by differential runs on every check.")
 LEVEL_NOTE = ("Trusted: Lean kernel; axioms propext/Classical.choice/Quot.sound only; the correspondence harness; Python re "
-              "is re-implemented as character-class scanners (agreement measured, not proved); set()/sorted() re-implemented "
+              "is re-implemented as character-class scanners and the interval split re.split(r'(?<=\\d)\\s*-\\s*(?=\\d)') as a four-state automaton "
+              "(agreement measured, not proved); set()/sorted() re-implemented "
               "as one insertion pass. Proved about the model, measured against the code.")
 EXHAUSTIVE = {"quick": False, "thorough": False}
 ASSUMPTIONS = [
@@ -35,7 +41,7 @@ ASSUMPTIONS = [
 ]
 TRUSTED = ["CiscoIOSInterface and CiscoRange(result_type=None) only; CiscoIOSXRInterface is out of scope"]
 
-PREFIXES = ["Ethernet", "Eth", "Gi", "GigabitEthernet", "Port-channel", "Serial", "Vlan", "Loopback", "Tunnel", "ATM",
+PREFIXES = ["Ethernet", "Eth", "Gi", "GigabitEthernet", "Port-channel", "Bundle-Ether", "Serial", "Vlan", "Loopback", "Tunnel", "ATM",
             "TenGigE", "mgmt", "Po", "Fa", "Te"]
 CLASSES = ["multipoint", "point-to-point", "l-two", "x", "PtP"]
 BOUNDARY = [0, 1, 2, 9, 10, 11, 19, 20, 99, 100, 101, 999, 1000, 4094, 9998, 9999]
@@ -169,10 +175,8 @@ def _rand_ops(rng):
 def _rand_range(rng):
     style = rng.choice(["bare", "bare", "marked", "full"])
     base = _descr(rng, hyphen_class=False)
-    if rng.random() < 0.85 and "-" in base["prefix"]:
-        base["prefix"] = rng.choice([p for p in PREFIXES if "-" not in p])
-    if base["prefix"].endswith("-") or (base["prefix"] and "-" in base["prefix"] and rng.random() < 0.5):
-        base["prefix"] = base["prefix"].replace("-", "")
+    if rng.random() < 0.2:
+        base["prefix"] = rng.choice(["Port-channel", "Bundle-Ether", "Port-channel", "nve-x", "a-b-c"])
     cls, base["cls"] = base["cls"], None
     last, mark = ref_last(base)
     sp = lambda: rng.choice(["", "", "", "", " "])  # noqa: E731
@@ -239,7 +243,9 @@ FIXED_RANGES = ["Eth1/1-3,5,9-10", "Port-channel1-3", "Port-channel1,2", "Serial
                 "Serial1/0:3-1,5", "Eth1-3", "Eth1/2/1-3,7", " ", "Eth1/1-3-5", "Eth1/1-", "Eth1/1-a", "Eth 1/1 - 3 , 5",
                 "Eth1/1,,2", "Serial1/0,1 multipoint", "Serial1/0.1-2 multipoint", "Eth1/1,x", "Eth1/1, 7 , 9 - 11 ", "",
                 ",", "Eth1/1,", ",Eth1/1", "Eth1/1-3 foo_bar", "Eth1/1 foo,2 bar", "Serial1/0:1,5-7,x", "Eth1/1-3 point-to-point",
-                "Eth1/1.2:3-4,:9", "Eth1/1,2-", "Eth1/1 -3", "1-3", "1/1-3,5"]
+                "Eth1/1.2:3-4,:9", "Eth1/1,2-", "Eth1/1 -3", "1-3", "1/1-3,5", "Port-channel 1 - 3 , 7", "Bundle-Ether10-12,15",
+                "Port-channel1.1-3", "Po-1-3", "Eth1/1--3", "Eth1/1- -3", "Eth1/1 x-3", "Eth1/1-3x-5", "1-2-3", "Eth1/1-3 point-to-point,5",
+                "Eth1/1 -", "-1-3", "Eth1-2/3", "Serial1/0-2 point-to-point"]
 
 
 def _too_big(text):
@@ -247,7 +253,7 @@ def _too_big(text):
     if re.search(r"\d{6,}", text):
         return True
     for part in text.split(","):
-        pieces = part.split("-")
+        pieces = re.split(r"(?<=\d)\s*-\s*(?=\d)", part)
         if len(pieces) == 2:
             hi = int("".join(c for c in pieces[1] if c.isdigit()) or "0")
             los = [int(x) for x in re.findall(r"\d+", pieces[0])] or [0]
@@ -337,6 +343,8 @@ def buckets(case, ans):
         if case.get("base"):
             out.append("iter:" + ("chan" if case["base"]["chan"] is not None else "sub" if case["base"]["sub"] is not None else "port"))
             out.append("members:%s" % min(50, len(case["values"]) // 5 * 5))
+        if case.get("base"):
+            out.append("range-prefix-hyphen:%s" % ("-" in case["base"]["prefix"]))
         out.append("parts:%d" % min(9, case["text"].count(",") + 1))
     return out
 
@@ -423,8 +431,6 @@ def impl(case):
 # ------------------------------------------------------------------ oracle (independent of the Lean model)
 def known_id(case, failure):
     if case["kind"] == "range" and case.get("base"):
-        if "-" in case["base"]["prefix"] and failure.startswith("well-formed range rejected"):
-            return "FC15a"
         last_is_port = case["base"]["sub"] is None and case["base"]["chan"] is None
         if (not last_is_port and case["style"] == "bare" and case["text"].count(",") >= 1
                 and (failure.startswith("well-formed range rejected with err:TypeError") or failure.startswith("bare-part:"))):
